@@ -664,6 +664,8 @@ namespace hgraph::ts_data_plan_factory_detail
                     value_published_.reset(slot);
                     if (slot_added(slot)) { added_.reset(slot); }
                     else { removed_.set(slot); }
+                    // the published key set changed: its projection must tick as well
+                    (void)key_set_tracking_.record_modified(modified_time);
                     return;
                 }
 
@@ -672,6 +674,8 @@ namespace hgraph::ts_data_plan_factory_detail
                     value_published_.set(slot);
                     if (slot_removed(slot)) { removed_.reset(slot); }
                     else { added_.set(slot); }
+                    // the published key set changed: its projection must tick as well
+                    (void)key_set_tracking_.record_modified(modified_time);
                 }
                 modified_.set(slot);
             }
